@@ -95,7 +95,9 @@ def rng_strict_html(p, res):
     a, b = pairs['html_matcher.match.scan_callback'], pairs['html_matcher.balanced_outward.scan_callback']
     want = {('start', 'end'), ('tag.start', 'end')}
     for fq, got in pairs.items():
-        if got != want:
+        if got != want and got < want:
+            res.undecided('%s: containment bounds %s' % (fq, sorted(got)), 'expected %s in this function' % sorted(want))
+        elif got != want:
             res.bad(F('RNG-STRICT/html', p.func(fq), p.func(fq).node, 'containment bounds %s' % sorted(got),
                       'self-closing tags are tested against their own range and pairs against open-tag start .. close-tag end: expected %s' % sorted(want)))
         else:
@@ -108,7 +110,9 @@ def rng_strict_css(p, res):
     pairs = _strict_rule(p, res, 'RNG-STRICT/css', ['css_matcher.match.scan_callback', 'css_matcher.balanced_outward.scan_callback'])
     for fq, got in pairs.items():
         los = sorted(x[0] for x in got)
-        if len(got) != 2 or not all(l.endswith('[0]') for l in los):
+        if len(got) != 2 and not any(not l.endswith('[0]') for l in los):
+            res.undecided('%s: containment bounds %s' % (fq, sorted(got)), 'two containment tests (selector .. block end, name .. value end) expected in this function')
+        elif len(got) != 2 or not all(l.endswith('[0]') for l in los):
             res.bad(F('RNG-STRICT/css', p.func(fq), p.func(fq).node, 'containment bounds %s' % sorted(got),
                       'lower bounds must be the start ([0]) of the pending selector / property range'))
         else:
